@@ -1,16 +1,9 @@
 (* C14: decoding the standard A-XDR encoding of any supported value tree returns the
    corresponding Python value and consumes exactly the encoded bytes (any depth and width);
    the implemented encoders produce the standard encoding for every length. *)
-From Dlms Require Import Base FieldsModel TimeModel TimeProofs AxdrModel AxdrSpec.
+From Dlms Require Import Base FieldsModel TimeModel TimeSpec TimeProofs AxdrModel AxdrSpec AxdrBridge.
 From Coq Require Import ZifyBool ZifyN.
 Ltac Zify.zify_post_hook ::= Z.to_euclidean_division_equations.
-
-Fixpoint of_spec (y : pyv) : pv :=
-  match y with
-  | YNone => PNone | YBool b => PBool b | YInt z => PInt z | YBytes l => PBytes l
-  | YList l => PList (map of_spec l)
-  | YDateTime x st => PDateTime x st | YDate d => PDate d | YTime t => PTime t
-  end.
 
 (* ---------- the generated tag table says what the standard says ---------- *)
 Lemma kinds :
